@@ -49,7 +49,8 @@ fn names_in(e: &crate::lang::Expr, out: &mut Vec<String>) {
 pub fn judge_line(rep: &mut RunReport, ei: usize, prop: &str, stmt: &Stmt, text: &str, slot: &Slot, envm: &mut EnvModel, w: &World, env: &Env, t: i128) -> bool {
     let ctx = Ctx { env: &envm.vals, rates: &w.cfg.rates, today: utc_days(t), zone: w.cfg.zone.clone(), data: &env.data };
     let uses_poisoned = |e: &crate::lang::Expr| -> bool { let mut v = Vec::new(); names_in(e, &mut v); v.iter().any(|n| envm.poisoned.contains(n)) };
-    let shape = stmt_shape(stmt);
+    let mut shape = stmt_shape(stmt);
+    if let Stmt::Eval(e) | Stmt::Assign { e, .. } = stmt { if let Some(c) = crate::model::date_arith_class(e, &ctx) { shape = c; } }
     let mismatch = |rep: &mut RunReport, what: &str, expected: String| {
         rep.violate("O-model", format!("{}:{}:{}", prop, what, shape), ei, format!("line {:?} [{}]: the model says {}, the calculator gave {} (simulated instant {})", text, shape, expected, slot.short(), crate::clock::fmt_instant(t)));
     };
